@@ -553,3 +553,266 @@ fn c14_finding_announce_multiport_rule_leaves_faulty() {
     let _ = run_actions!(port.handle_announce(&m, a));
     assert!(port_view(&port).tag == 0);
 }
+
+
+// ============================================================================================ C05/C06/C08
+// INSTANCE-LEVEL COMPOSITION of the BMCA (PtpInstance::bmca -> PtpInstanceState::bmca), checked modularly: every
+// port-level and decision-level callee is replaced by a recording stub standing for its own contract
+// (take_best: c06_take_best_*; find_best: c05_find_best_*; calculate_recommended_state: c05_state_decision_*;
+// set_recommended_state: c05_apply_decision_*; step_announce_age: c06_step_announce_age_*), and the instance
+// code is checked to call them for EVERY port, in the right order, with the right arguments.
+use crate::bmc::bmca::BestAnnounceMessage;
+static mut IB_PHASE_OK: bool = true;
+static mut IB_CALC: [u32; 2] = [0; 2];
+static mut IB_QUERIED: bool = false;
+static mut IB_FOR_BMCA: [Option<BestAnnounceMessage>; 2] = [None; 2];
+static mut IB_FOR_STATE: [Option<BestAnnounceMessage>; 2] = [None; 2];
+static mut IB_DECISION: [u8; 2] = [0; 2];
+static mut IB_CRS_CALLS: usize = 0;
+static mut IB_CRS_EBEST: [Option<BestAnnounceMessage>; 2] = [None; 2];
+static mut IB_CRS_ERBEST: [Option<BestAnnounceMessage>; 2] = [None; 2];
+static mut IB_CRS_TAG_OK: bool = true;
+static mut IB_CRS_TAGS: [u8; 2] = [9; 2];
+static mut IB_SET: [u32; 2] = [0; 2];
+static mut IB_SET_CODE: [u8; 2] = [0; 2];
+static mut IB_SET_AFTER_CRS: bool = true;
+static mut IB_STEP: [u32; 2] = [0; 2];
+static mut IB_STEP_ARG: [i128; 2] = [0; 2];
+static mut IB_STEP_LAST: bool = true;
+static mut IB_INTERVAL: i128 = 0;
+static mut IB_M3: Option<AnnounceMessage> = None;
+
+fn ib_stub_from_seconds(_secs: f64) -> Duration { dur_from_bits(unsafe { IB_INTERVAL }) }
+fn ib_tag(s: &PortState) -> u8 {
+    match s { PortState::Faulty => 0, PortState::Listening => 1, PortState::Master => 2, PortState::Passive => 3, PortState::Slave(_) => 4 }
+}
+fn ib_code(r: &RecommendedState) -> u8 {
+    match r { RecommendedState::M1(_) => 1, RecommendedState::M2(_) => 2, RecommendedState::M3(_) => 3, RecommendedState::P1(_) => 4, RecommendedState::P2(_) => 5, RecommendedState::S1(_) => 6 }
+}
+
+impl<A: AcceptableMasterList, C: Clock, F: Filter, R: Rng, S: PtpInstanceStateMutex> Port<'_, InBmca, A, R, C, F, S> {
+    pub(crate) fn verif_ib_calc_best(&mut self) {
+        let i = (self.port_identity.port_number - 1) as usize;
+        unsafe {
+            // Erbest of every port is taken before any of them is asked for it
+            if IB_QUERIED { IB_PHASE_OK = false; }
+            IB_CALC[i] += 1;
+        }
+    }
+}
+impl<A, C: Clock, F: Filter, R: Rng, S: PtpInstanceStateMutex> Port<'_, InBmca, A, R, C, F, S> {
+    pub(crate) fn verif_ib_for_bmca(&self) -> Option<BestAnnounceMessage> {
+        let i = (self.port_identity.port_number - 1) as usize;
+        unsafe { IB_QUERIED = true; IB_FOR_BMCA[i] }
+    }
+    pub(crate) fn verif_ib_for_state(&self) -> Option<BestAnnounceMessage> {
+        let i = (self.port_identity.port_number - 1) as usize;
+        unsafe { IB_QUERIED = true; IB_FOR_STATE[i] }
+    }
+    pub(crate) fn verif_ib_set_recommended_state(
+        &mut self,
+        recommended_state: RecommendedState,
+        _path_trace_ds: &mut PathTraceDS,
+        _time_properties_ds: &mut TimePropertiesDS,
+        _current_ds: &mut InternalCurrentDS,
+        _parent_ds: &mut InternalParentDS,
+        _default_ds: &InternalDefaultDS,
+    ) {
+        let i = (self.port_identity.port_number - 1) as usize;
+        unsafe {
+            IB_SET[i] += 1;
+            IB_SET_CODE[i] = ib_code(&recommended_state);
+            // the decision applied to port i is the one computed for port i (the i-th decision call came first)
+            if IB_CRS_CALLS != i + 1 { IB_SET_AFTER_CRS = false; }
+            // ageing comes after all decisions
+            if IB_STEP[0] + IB_STEP[1] > 0 { IB_STEP_LAST = false; }
+        }
+    }
+    pub(crate) fn verif_ib_step_announce_age(&mut self, step: Duration) {
+        let i = (self.port_identity.port_number - 1) as usize;
+        unsafe {
+            IB_STEP[i] += 1;
+            IB_STEP_ARG[i] = dur_bits(step);
+            if IB_CRS_CALLS != 2 { IB_STEP_LAST = false; }
+        }
+    }
+}
+impl<A> Bmca<A> {
+    pub(crate) fn verif_ib_calculate_recommended_state(
+        own_data: &InternalDefaultDS,
+        best_global_announce_message: Option<BestAnnounceMessage>,
+        best_port_announce_message: Option<BestAnnounceMessage>,
+        port_state: &PortState,
+    ) -> Option<RecommendedState> {
+        unsafe {
+            let k = IB_CRS_CALLS;
+            IB_CRS_CALLS += 1;
+            if k >= 2 { IB_PHASE_OK = false; return None; }
+            IB_CRS_EBEST[k] = best_global_announce_message;
+            IB_CRS_ERBEST[k] = best_port_announce_message;
+            if ib_tag(port_state) != IB_CRS_TAGS[k] { IB_CRS_TAG_OK = false; }
+            match IB_DECISION[k] {
+                0 => None,
+                1 => Some(RecommendedState::M1(*own_data)),
+                _ => Some(RecommendedState::M3(IB_M3.unwrap())),
+            }
+        }
+    }
+}
+
+#[kani::proof]
+#[kani::unwind(34)]
+#[kani::stub(PortActionIterator::from, PortActionIterator::verif_recording_from)]
+#[kani::stub(Duration::from_seconds, ib_stub_from_seconds)]
+#[kani::stub(Port::calculate_best_local_announce_message, Port::verif_ib_calc_best)]
+#[kani::stub(Port::best_local_announce_message_for_bmca, Port::verif_ib_for_bmca)]
+#[kani::stub(Port::best_local_announce_message_for_state, Port::verif_ib_for_state)]
+#[kani::stub(Port::set_recommended_state, Port::verif_ib_set_recommended_state)]
+#[kani::stub(Port::step_announce_age, Port::verif_ib_step_announce_age)]
+#[kani::stub(Bmca::calculate_recommended_state, Bmca::verif_ib_calculate_recommended_state)]
+#[kani::stub(Bmca::find_best_announce_message, Bmca::verif_stub_find_best)]
+fn c05_instance_bmca_visits_every_port() {
+    let inst = crate::ptp_instance::verif_inst::any_instance_with_log(0, 0);
+    let lock = crate::ptp_instance::verif_inst::state_of(&inst);
+    // the host passes all ports of the instance (documented API contract): two ports
+    kani::assume(lock.peek().default_ds.number_ports == 2);
+    mk_port!(p1, lock, any_port_state(), InBmca { pending_action: actions![], local_best: None });
+    mk_port!(p2, lock, any_port_state(), InBmca { pending_action: actions![], local_best: None });
+    kani::assume(p1.port_identity.port_number == 1 && p2.port_identity.port_number == 2);
+    let interval: i128 = kani::any();
+    kani::assume(interval > 0 && interval < (1i128 << 100));
+    let b = [if kani::any() { Some(verif_bmca::any_best()) } else { None }, if kani::any() { Some(verif_bmca::any_best()) } else { None }];
+    let s = [if kani::any() { Some(verif_bmca::any_best()) } else { None }, if kani::any() { Some(verif_bmca::any_best()) } else { None }];
+    let dec: [u8; 2] = [kani::any(), kani::any()];
+    kani::assume(dec[0] <= 2 && dec[1] <= 2);
+    unsafe {
+        IB_INTERVAL = interval;
+        IB_FOR_BMCA = b;
+        IB_FOR_STATE = s;
+        IB_DECISION = dec;
+        IB_M3 = Some(verif_fm::any_announce());
+        IB_CRS_TAGS = [ib_tag(&p1.port_state), ib_tag(&p2.port_state)];
+    }
+    let pre1 = port_view(&p1);
+    let pre2 = port_view(&p2);
+    let inst0 = instance_view(lock.peek());
+    lock.reset_counters();
+
+    {
+        let mut ports = [&mut *p1, &mut *p2];
+        inst.bmca(&mut ports);
+    }
+
+    // C17: the whole BMCA run is one write acquisition
+    assert!(lock.n_mut.get() == 1 && lock.n_ref.get() == 0);
+    unsafe {
+        assert!(IB_PHASE_OK && IB_CRS_TAG_OK && IB_SET_AFTER_CRS && IB_STEP_LAST);
+        // Erbest of every port is (re)computed exactly once
+        assert!(IB_CALC[0] == 1 && IB_CALC[1] == 1);
+        // one decision per port, all with the same Ebest, which is one of the ports' candidates (None iff none),
+        // each with that port's own Erbest and current state
+        assert!(IB_CRS_CALLS == 2);
+        assert!(IB_CRS_EBEST[0] == IB_CRS_EBEST[1]);
+        let e = IB_CRS_EBEST[0];
+        assert!(e.is_some() == (b[0].is_some() || b[1].is_some()));
+        if e.is_some() { assert!(e == b[0] || e == b[1]); }
+        assert!(IB_CRS_ERBEST[0] == s[0] && IB_CRS_ERBEST[1] == s[1]);
+        // a decision is applied to exactly the port it was computed for; "no recommendation" applies nothing
+        assert!(IB_SET[0] == (dec[0] != 0) as u32 && IB_SET[1] == (dec[1] != 0) as u32);
+        if dec[0] != 0 { assert!(IB_SET_CODE[0] == if dec[0] == 1 { 1 } else { 3 }); }
+        if dec[1] != 0 { assert!(IB_SET_CODE[1] == if dec[1] == 1 { 1 } else { 3 }); }
+        // EVERY port's foreign-master records age by the BMCA interval, exactly once, whatever was decided (C06)
+        assert!(IB_STEP[0] == 1 && IB_STEP[1] == 1);
+        assert!(IB_STEP_ARG[0] == interval && IB_STEP_ARG[1] == interval);
+    }
+    // the instance-level code itself touches nothing else
+    assert!(port_view(&p1) == pre1 && port_view(&p2) == pre2);
+    assert!(instance_view(lock.peek()) == inst0);
+    kani::cover!(dec[0] == 0 && dec[1] != 0);
+    kani::cover!(b[0].is_none() && b[1].is_some());
+}
+
+
+// ---- contracts of the port-level callees that the instance harness replaces by stubs ----
+static mut PB_TAKE_BEST: Option<BestAnnounceMessage> = None;
+static mut PB_TAKE_CALLS: u32 = 0;
+static mut PB_AGE_CALLS: u32 = 0;
+static mut PB_AGE_ARG: i128 = 0;
+static mut PB_INTERVAL_DUR: i128 = 0;
+impl<A: AcceptableMasterList> Bmca<A> {
+    pub(crate) fn verif_pb_take_best(&mut self) -> Option<BestAnnounceMessage> {
+        unsafe { PB_TAKE_CALLS += 1; PB_TAKE_BEST }
+    }
+}
+impl<A> Bmca<A> {
+    pub(crate) fn verif_pb_step_age(&mut self, step: Duration) {
+        unsafe { PB_AGE_CALLS += 1; PB_AGE_ARG = dur_bits(step); }
+    }
+}
+/// stand-in for Interval::as_duration (2^n s as a Duration; exactness is C16's log-interval clause): an
+/// arbitrary positive duration chosen by the harness
+fn pb_stub_interval_as_duration(_i: crate::time::Interval) -> Duration { dur_from_bits(unsafe { PB_INTERVAL_DUR }) }
+
+/// calculate_best_local_announce_message: local_best := take_best_port_announce_message() (one call), frame;
+/// best_local_announce_message_for_state = local_best; ..._for_bmca = local_best unless the port is master-only
+/// or Faulty (9.2.2.2: Announces received on a masterOnly port do not take part in the global BMCA; C14: a
+/// faulty port contributes nothing).
+#[kani::proof]
+#[kani::unwind(34)]
+#[kani::stub(PortActionIterator::from, PortActionIterator::verif_recording_from)]
+#[kani::stub(Bmca::take_best_port_announce_message, Bmca::verif_pb_take_best)]
+fn c05_port_erbest_accessors() {
+    let lock = ChkLock::new(any_instance_state(0));
+    mk_port!(port, &lock, any_port_state(), InBmca { pending_action: actions![], local_best: if kani::any() { Some(verif_bmca::any_best()) } else { None } });
+    let best = if kani::any() { Some(verif_bmca::any_best()) } else { None };
+    unsafe { PB_TAKE_BEST = best; PB_TAKE_CALLS = 0; }
+    let pre = port_view(&port);
+    let inst = instance_view(lock.peek());
+    lock.reset_counters();
+    port.calculate_best_local_announce_message();
+    assert!(unsafe { PB_TAKE_CALLS } == 1);
+    assert!(port.lifecycle.local_best == best);
+    assert!(port_view(&port) == pre && instance_view(lock.peek()) == inst);
+    assert!(port.best_local_announce_message_for_state() == best);
+    let hidden = port.config.master_only || pre.tag == 0;
+    assert!(port.best_local_announce_message_for_bmca() == if hidden { None } else { best });
+    assert!(lock.n_mut.get() == 0 && lock.n_ref.get() == 0);
+    assert!(port_view(&port) == pre);
+    kani::cover!(hidden && best.is_some());
+    kani::cover!(!hidden && best.is_some());
+}
+
+/// step_announce_age(step): the foreign-master records age by exactly `step` (one call of Bmca::step_age, which
+/// is ForeignMasterList::step_age: c06_list_step_age_*), and the multiport-disable marker ages by `step` too and
+/// is dropped once it has reached one announce interval; nothing else changes.
+#[kani::proof]
+#[kani::unwind(34)]
+#[kani::stub(PortActionIterator::from, PortActionIterator::verif_recording_from)]
+#[kani::stub(Bmca::step_age, Bmca::verif_pb_step_age)]
+#[kani::stub(crate::time::Interval::as_duration, pb_stub_interval_as_duration)]
+fn c06_step_announce_age_ages_records_and_marker() {
+    let lock = ChkLock::new(any_instance_state(0));
+    mk_port!(port, &lock, any_port_state(), InBmca { pending_action: actions![], local_best: None });
+    let step: i128 = kani::any();
+    kani::assume(step >= 0 && step < (1i128 << 100));
+    let ivl: i128 = kani::any();
+    kani::assume(ivl > 0 && ivl < (1i128 << 100));
+    if let Some(a) = port.multiport_disable { kani::assume(dur_bits(a) >= 0 && dur_bits(a) < (1i128 << 100)); }
+    unsafe { PB_AGE_CALLS = 0; PB_INTERVAL_DUR = ivl; }
+    let pre = port_view(&port);
+    let inst = instance_view(lock.peek());
+    lock.reset_counters();
+
+    port.step_announce_age(dur_from_bits(step));
+
+    assert!(unsafe { PB_AGE_CALLS } == 1 && unsafe { PB_AGE_ARG } == step);
+    let mut want = pre;
+    want.multiport_disable = match pre.multiport_disable {
+        Some(a) if dur_bits(a) + step < ivl => Some(dur_from_bits(dur_bits(a) + step)),
+        _ => None,
+    };
+    assert!(port_view(&port) == want);
+    assert!(instance_view(lock.peek()) == inst && lock.n_mut.get() == 0 && lock.n_ref.get() == 0);
+    kani::cover!(pre.multiport_disable.is_some() && want.multiport_disable.is_some());
+    kani::cover!(pre.multiport_disable.is_some() && want.multiport_disable.is_none());
+}
